@@ -306,6 +306,7 @@ class C12(PropCheck):
 
     def gen_partition(self, n_sets, max_rows):
         r = self.rng
+        self._part_ref = {}
         for ds in range(n_sets):
             style = ['dyadic', 'float', 'dec', 'int'][ds % 4]
             shapes = [[0], [0, 2], [3], [1, 0], [2, 2]][ds % 5]
@@ -323,7 +324,8 @@ class C12(PropCheck):
                     ops += [['update'], ['gen', probe]]
                     self.bump('partition:rows=%d' % N)
                     self.bump('partition:batches=%d' % (len(bounds) - 1))
-                    yield dict(kind='adaptive', observed=obs, ops=ops, bad=None, dataset='%d/%d' % (ds, N))
+                    yield dict(kind='adaptive', observed=obs, ops=ops, bad=None,
+                               dataset='%d/%d/%s' % (ds, N, hashlib.sha1(json.dumps(full).encode()).hexdigest()[:8]))
 
     def gen_rejection(self, n):
         r = self.rng
